@@ -152,69 +152,18 @@ def label(items):
     return "·".join(f"{e}^{x}" for e, x in items)
 
 
-def run(prog, tier) -> Result:
-    res = Result("C07")
-    res.explanation = (
-        "The Term class is evaluated abstractly, method by method, on small terms over symbolic elements: a reference "
-        "unit A and a defined unit B = k*A of one type (convertible, B expands to k*A), two unconvertible base units "
-        "C, D of a type without reference unit, a unit V of another type, and numeric elements of kind int, Decimal "
-        "and Fraction, with exponents in {-2..3}; all item orders are enumerated and unknown sort orders fork. "
-        "Checked as identities of rational functions: normalisation preserves the denoted value and yields the normal "
-        "form shape (one numeric factor first, base elements once, non-zero exponents), is idempotent; terms denoting "
-        "the same value compare equal and hash equal regardless of order, splitting of exponents, unit expansion and "
-        "numeric folding, terms denoting different values compare unequal; product, quotient, reciprocal, integer "
-        "power and the numeric forms compute the group operation; no path performs float arithmetic or int ** "
-        "negative. Memo fields and items have a single writer.")
-    res.trusted = ["exact arithmetic of Decimal/Fraction; tuple equality/hash"]
-    res.assumptions = ["bounded: terms of at most 3 items over 5 symbolic elements; completeness of the canonical form "
-                       "for longer terms and termination of the expansion for arbitrary definition chains are NOT decided"]
+E = {"A": lambda w: w.A, "B": lambda w: w.B, "C": lambda w: w.C, "D": lambda w: w.D, "V": lambda w: w.V,
+     "2": lambda w: w.num(2, "int"), "3": lambda w: w.num(3, "int"),
+     "1/2": lambda w: w.num(Fraction(1, 2), "frac"), "2.5": lambda w: w.num(Fraction(5, 2), "dec"),
+     "8": lambda w: w.num(8, "int")}
 
-    E = {"A": lambda w: w.A, "B": lambda w: w.B, "C": lambda w: w.C, "D": lambda w: w.D, "V": lambda w: w.V,
-         "2": lambda w: w.num(2, "int"), "3": lambda w: w.num(3, "int"),
-         "1/2": lambda w: w.num(Fraction(1, 2), "frac"), "2.5": lambda w: w.num(Fraction(5, 2), "dec"),
-         "8": lambda w: w.num(8, "int")}
+def build(w, spec):
+    return [(E[e](w), x) for e, x in spec]
 
-    def build(w, spec):
-        return [(E[e](w), x) for e, x in spec]
 
-    # ---- S1 normalisation: value, shape, idempotence
-    norm_specs = [
-        [("A", 1)], [("B", 1)], [("B", 2)], [("B", -1)], [("2", 3)], [("2", -1)], [("1/2", -2)], [("2.5", 2)],
-        [("A", 1), ("B", 1)], [("B", 1), ("A", -1)], [("A", 2), ("A", -2)], [("C", 1), ("D", -1)], [("D", -1), ("C", 1)],
-        [("2", 1), ("A", 1)], [("A", 1), ("2", 1)], [("2", 2), ("3", -1)], [("V", 1), ("A", 1)], [("A", 1), ("V", 1)],
-        [("B", 1), ("V", -1), ("A", 1)], [("2", 1), ("B", 2), ("1/2", 1)], [("C", 1), ("D", 1), ("C", -1)],
-        [("V", -1), ("B", 1), ("3", 2)],
-    ]
-    if tier == "quick":
-        norm_specs = norm_specs[:18]
-    for spec in norm_specs:
-        def body(I, c, spec=spec):
-            w = World(prog, I, c)
-            t = w.term(build(w, spec))
-            n = w.call(t, "normalized")
-            n2 = w.call(n, "normalized")
-            I.world = w
-            c.st.world = w
-            return TupleV([t, n, n2])
 
-        def judge(o, spec=spec):
-            st = o.state
-            w = st.world
-            t, n, n2 = o.value.items
-            want = mag_items(st, w, build(w, spec))
-            got_t, got_n = mag(st, t), mag(st, n)
-            if not got_t.equals(want):
-                return ("construction changes the denoted value", f"items denote {want!r}, term holds {got_t!r}")
-            if not got_n.equals(want):
-                return ("normalisation changes the denoted value", f"{want!r} -> {got_n!r}: {n.fields['_items']!r}")
-            d = normal_form_defects(st, w, n)
-            if d:
-                return ("result of normalized() is not in normal form", f"{d}: {n.fields['_items']!r}")
-            if n2 is not n:
-                return ("normalisation is not idempotent", f"{n.fields['_items']!r} -> {n2.fields['_items']!r}")
-            return None
-        run_scenario(prog, res, "R07.4", "Term.normalized", f"normalize {label(spec)}", body, judge)
-
+def equality_scenarios(prog, res, rule):
+    """Terms denoting the same value compare and hash equal; different values compare unequal."""
     # ---- S3 equality and hash
     equal_pairs = [
         ([("A", 1), ("V", 1)], [("V", 1), ("A", 1)]),
@@ -260,14 +209,73 @@ def run(prog, tier) -> Result:
             if not struct_equal(st, h1, h2):
                 return ("equal terms hash differently", f"{h1!r} vs {h2!r}")
             return None
-        run_scenario(prog, res, "R07.2", "Term.__eq__/__hash__", f"{label(s1)} == {label(s2)}", eq_body(s1, s2), judge)
+        run_scenario(prog, res, rule, "Term.__eq__/__hash__", f"{label(s1)} == {label(s2)}", eq_body(s1, s2), judge)
     for s1, s2 in unequal_pairs:
         def judge(o, s1=s1, s2=s2):
             e12, e21 = o.value.items[:2]
             if e12.val or e21.val:
                 return ("terms denoting different values compare equal", f"{label(s1)} vs {label(s2)}")
             return None
-        run_scenario(prog, res, "R07.2", "Term.__eq__/__hash__", f"{label(s1)} != {label(s2)}", eq_body(s1, s2), judge)
+        run_scenario(prog, res, rule, "Term.__eq__/__hash__", f"{label(s1)} != {label(s2)}", eq_body(s1, s2), judge)
+
+
+
+def run(prog, tier) -> Result:
+    res = Result("C07")
+    res.explanation = (
+        "The Term class is evaluated abstractly, method by method, on small terms over symbolic elements: a reference "
+        "unit A and a defined unit B = k*A of one type (convertible, B expands to k*A), two unconvertible base units "
+        "C, D of a type without reference unit, a unit V of another type, and numeric elements of kind int, Decimal "
+        "and Fraction, with exponents in {-2..3}; all item orders are enumerated and unknown sort orders fork. "
+        "Checked as identities of rational functions: normalisation preserves the denoted value and yields the normal "
+        "form shape (one numeric factor first, base elements once, non-zero exponents), is idempotent; terms denoting "
+        "the same value compare equal and hash equal regardless of order, splitting of exponents, unit expansion and "
+        "numeric folding, terms denoting different values compare unequal; product, quotient, reciprocal, integer "
+        "power and the numeric forms compute the group operation; no path performs float arithmetic or int ** "
+        "negative. Memo fields and items have a single writer.")
+    res.trusted = ["exact arithmetic of Decimal/Fraction; tuple equality/hash"]
+    res.assumptions = ["bounded: terms of at most 3 items over 5 symbolic elements; completeness of the canonical form "
+                       "for longer terms and termination of the expansion for arbitrary definition chains are NOT decided"]
+
+    # ---- S1 normalisation: value, shape, idempotence
+    norm_specs = [
+        [("A", 1)], [("B", 1)], [("B", 2)], [("B", -1)], [("2", 3)], [("2", -1)], [("1/2", -2)], [("2.5", 2)],
+        [("A", 1), ("B", 1)], [("B", 1), ("A", -1)], [("A", 2), ("A", -2)], [("C", 1), ("D", -1)], [("D", -1), ("C", 1)],
+        [("2", 1), ("A", 1)], [("A", 1), ("2", 1)], [("2", 2), ("3", -1)], [("V", 1), ("A", 1)], [("A", 1), ("V", 1)],
+        [("B", 1), ("V", -1), ("A", 1)], [("2", 1), ("B", 2), ("1/2", 1)], [("C", 1), ("D", 1), ("C", -1)],
+        [("V", -1), ("B", 1), ("3", 2)],
+    ]
+    if tier == "quick":
+        norm_specs = norm_specs[:18]
+    for spec in norm_specs:
+        def body(I, c, spec=spec):
+            w = World(prog, I, c)
+            t = w.term(build(w, spec))
+            n = w.call(t, "normalized")
+            n2 = w.call(n, "normalized")
+            I.world = w
+            c.st.world = w
+            return TupleV([t, n, n2])
+
+        def judge(o, spec=spec):
+            st = o.state
+            w = st.world
+            t, n, n2 = o.value.items
+            want = mag_items(st, w, build(w, spec))
+            got_t, got_n = mag(st, t), mag(st, n)
+            if not got_t.equals(want):
+                return ("construction changes the denoted value", f"items denote {want!r}, term holds {got_t!r}")
+            if not got_n.equals(want):
+                return ("normalisation changes the denoted value", f"{want!r} -> {got_n!r}: {n.fields['_items']!r}")
+            d = normal_form_defects(st, w, n)
+            if d:
+                return ("result of normalized() is not in normal form", f"{d}: {n.fields['_items']!r}")
+            if n2 is not n:
+                return ("normalisation is not idempotent", f"{n.fields['_items']!r} -> {n2.fields['_items']!r}")
+            return None
+        run_scenario(prog, res, "R07.4", "Term.normalized", f"normalize {label(spec)}", body, judge)
+
+    equality_scenarios(prog, res, "R07.2")
 
     # ---- S4 group operations
     op_specs = [([("A", 1), ("2", 1)], [("V", -1), ("B", 1)]), ([("C", 1)], [("D", 1)]), ([("2", 2)], [("3", -1)]),
